@@ -53,13 +53,28 @@ pub fn layouts() -> Vec<Layout> {
             files: { let mut f = common.clone(); f.extend(vec![("src/gen/g.txt", "generated"), ("src/gen/h.bin", "generated-binary")]); f },
             writes: vec!["out/o.txt"],
         },
+        // a symlink to a regular file inside a declared directory: the content behind it is part of the resource
+        Layout {
+            name: "symlinked-input",
+            projects: vec![("", None, "t:\n  build: ':'\n  input: [{paths: [src], extensions: [txt]}]\n  output: [{paths: [out/o.txt]}]\n")],
+            target: "t",
+            files: { let mut f = common.clone(); f.extend(vec![("vault/real.txt", "behind-the-link")]); f },
+            writes: vec!["out/o.txt"],
+        },
         // declared paths that are not in canonical form (a `..` component), inside the project
         mk("non-canonical-paths", "t:\n  build: ':'\n  input: [{paths: [src/sub/../a.txt, src/sub/deep/../../sub]}]\n  output: [{paths: [out/../out/o.txt]}]\n", vec!["out/o.txt"]),
         mk("two-resources", "t:\n  build: ':'\n  input: [{paths: [src/a.txt]}, {paths: [src/sub], extensions: [txt]}]\n  output: [{paths: [out/o.txt]}]\n", vec!["out/o.txt"]),
         mk("cmd-only", "t:\n  build: ':'\n  input: [{cmd_stdout: 'cat v.txt'}]\n  output: [{paths: [out/o.txt]}]\n", vec!["out/o.txt"]),
         mk("file+cmd", "t:\n  build: ':'\n  input: [{paths: [src/a.txt]}, {cmd_stdout: 'cat v.txt'}]\n  output: [{paths: [out/o.txt]}, {cmd_stdout: 'cat out/o.txt'}]\n", vec!["out/o.txt"]),
         mk("input-only", "t:\n  build: ':'\n  input: [{paths: [src]}]\n", vec![]),
-        mk("big-file", "t:\n  build: ':'\n  input: [{paths: [big.bin]}]\n  output: [{paths: [out/o.txt]}]\n", vec!["out/o.txt"]),
+        Layout {
+            name: "big-file",
+            projects: vec![("", None, "t:\n  build: ':'\n  input: [{paths: [big.bin]}]\n  output: [{paths: [out/o.txt]}]\n")],
+            target: "t",
+            // (big.bin is overwritten with 24 kB at materialisation; listed here so that its operations are generated)
+            files: { let mut f = common.clone(); f.push(("big.bin", "placeholder")); f },
+            writes: vec!["out/o.txt"],
+        },
         Layout {
             name: "inherited-output-same-project",
             projects: vec![("", None, "p:\n  build: ':'\n  output: [{paths: [pout], extensions: [o]}, {cmd_stdout: 'cat pv.txt'}]\nt:\n  build: ':'\n  input: [{paths: [src/a.txt]}, p.output]\n  output: [{paths: [out/o.txt]}]\n")],
@@ -154,6 +169,9 @@ pub fn ops_for(l: &Layout) -> Vec<Op> {
     }
     if has("v.txt") {
         v.push(RewriteSameLength("v.txt"));
+    }
+    if has("vault/real.txt") {
+        v.extend(vec![RewriteSameLength("vault/real.txt"), RewriteOlderMtime("vault/real.txt"), TouchSameContent("vault/real.txt")]);
     }
     if has("big.bin") {
         v.extend(vec![ChangeByteAt("big.bin", 5), ChangeByteAt("big.bin", 1500), ChangeByteAt("big.bin", 9000), ChangeByteAt("big.bin", 23999), TouchSameContent("big.bin"), Append("big.bin")]);
@@ -356,6 +374,9 @@ pub struct Scene {
 pub fn materialise(l: &Layout, root: &Path) -> Scene {
     for (f, c) in &l.files {
         write_clocked(&root.join(f), c.as_bytes());
+    }
+    if l.name == "symlinked-input" {
+        std::os::unix::fs::symlink("../vault/real.txt", root.join("src/link.txt")).unwrap();
     }
     if l.name == "big-file" {
         write_clocked(&root.join("big.bin"), big_content().as_bytes());
